@@ -435,7 +435,7 @@ PROPS = {
                 "expire / add / get / getall / remove / keypair), every content or key operation with a token drawn from ALL tokens "
                 "issued so far (own, foreign, closed, expired), garbage or not-yet-issued; non-trivial = at least two wallets were "
                 "opened, a read returned data and an operation was refused; distinct (input, outcome) pairs",
-        "trusted_base": ["gcache expiry (real clock: 150 ms expiry, 420 ms sleep)", "localkms / hkdf secret lock (passphrase check)",
+        "trusted_base": ["gcache expiry (real clock: 400 ms expiry, 1000 ms sleep)", "localkms / hkdf secret lock (passphrase check)",
                          "harness-owned in-memory provider whose stores survive Close"],
         "assumptions": ["one wallet.New instance per operation (as the REST/command controllers do)",
                         "Metadata content type stands for all content types (same contentStore code path)",
